@@ -14,13 +14,34 @@ from rules.core import key, const_val, walk
 from props import tp
 
 
-def stop_timer_rule(rep, u, vals):
-    fn = tp.need(u, "tp_task_stop")
-    rep.functions.add(fn.name)
-    n = 0
-    for pos, root, c, ps in fn.calls({"tpt_ev_del_args1", "tpt_ev_del_args"}):
-        if const_val(c["args"][0]) != vals["TP_EV_TIMER"]:
+def _timer_off_calls(fn, vals):
+    """calls that remove or disable the timer registration"""
+    out = []
+    for pos, root, c, ps in fn.calls():
+        nm = c.get("fn") or ""
+        if not nm.startswith("tpt_ev_") or not c.get("args"):
             continue
+        if "_del_" in nm and const_val(c["args"][0]) == vals["TP_EV_TIMER"]:
+            out.append((pos, c))
+        elif "enable" in nm and const_val(c["args"][0]) == 0 and len(c["args"]) > 1 and const_val(c["args"][1]) == vals["TP_EV_TIMER"] and \
+                core.strip_casts(c["args"][1]).get("k") != "mem":
+            out.append((pos, c))
+    return out
+
+
+def stop_timer_rule(rep, u, vals):
+    n = 0
+    for fn in u.function_list:
+        if fn.relfile() != tp.TASK_C or not fn.has_cfg:
+            continue
+        n += _stop_timer_in(rep, fn, vals)
+    return n
+
+
+def _stop_timer_in(rep, fn, vals):
+    n = 0
+    for pos, c in _timer_off_calls(fn, vals):
+        rep.functions.add(fn.name)
         n += 1
         conds = []
         for bid in fn.reachable_blocks():
@@ -32,13 +53,14 @@ def stop_timer_rule(rep, u, vals):
             for y, _ in walk(cnd):
                 if y.get("k") == "mem" and y["f"] == "timeout":
                     conds.append(y.get("ln"))
-        desc = "tp_task_stop: the timer registration is removed whatever the current value of the timeout field"
+        desc = "%s: the timer registration is switched off whatever the current value of the timeout field" % fn.name
+        inst = "timer-del-unconditional" if fn.name == "tp_task_stop" else "timer-off-unconditional#%d" % n
         if conds:
-            rep.violated("R-STOP", fn, "timer-del-unconditional", desc, "the removal is skipped when ->timeout is 0 (line %s), but tp_task_timeout_set(0) "
-                         "leaves an armed timer in place: the callback runs with ETIMEDOUT after tp_task_stop() returned, and after "
-                         "tp_task_destroy() the pool dereferences the freed task" % conds[0], c.get("ln"))
+            rep.violated("R-STOP", fn, inst, desc, "switched off only while ->timeout != 0 (line %s), but tp_task_timeout_set(0) "
+                         "leaves an armed timer in place: ETIMEDOUT is delivered although the task has no timeout any more "
+                         "(after tp_task_stop: a callback after stop, after tp_task_destroy: use after free)" % conds[0], c.get("ln"))
         else:
-            rep.proved("R-STOP", fn, "timer-del-unconditional", desc, "", c.get("ln"))
+            rep.proved("R-STOP", fn, inst, desc, "", c.get("ln"))
     return n
 
 
@@ -69,7 +91,13 @@ def own_event_flags_rule(rep, u):
 
 
 def timer_arm_rule(rep, u, vals):
-    fn = tp.need(u, "tp_task_handler_post_int")
+    n = 0
+    for fname in ("tp_task_handler_post_int", "tp_task_enable"):
+        n += _timer_arm_in(rep, tp.need(u, fname), vals)
+    return n
+
+
+def _timer_arm_in(rep, fn, vals):
     rep.functions.add(fn.name)
     n = 0
     for pos, root, c, ps in fn.calls():
@@ -78,9 +106,11 @@ def timer_arm_rule(rep, u, vals):
             continue
         if not any("tp_timer" in key(a) for a in c["args"]):
             continue
+        if "_del_" in nm or ("enable" in nm and const_val(c["args"][0]) == 0):
+            continue                  # switching off, not arming
         n += 1
         names_thread = any(core.strip_casts(a).get("k") == "mem" and core.strip_casts(a)["f"] == "tpt" for a in c["args"])
-        desc = "tp_task_handler_post_int: the timer armed after a callback is registered with the pool thread named explicitly"
+        desc = "%s: the timer is armed with the pool thread named explicitly" % fn.name
         if names_thread:
             rep.proved("R-ARM", fn, "timer-arm", desc, nm, c.get("ln"))
         else:
@@ -187,3 +217,75 @@ def cursor_clobber_rule(rep, u):
             rep.violated("R-CLOBBER", fn, "cursor-restored", desc, "%s() sets ->%s = 0 (line %s) and the cursor is not restored: every attempt is "
                          "reported with addr_index 0, addrs[2] is never tried and max_tries never ends the task" % (c["fn"], field, resetters[c["fn"]]), c.get("ln"))
     return n
+
+
+def rearm_mask_rule(rep, u, flags):
+    """The pool disarms a TP_F_DISPATCH registration and removes a TP_F_ONESHOT one when it delivers the event.  When the
+    handler decides to go on (window unfinished at EAGAIN, or the callback answered CONTINUE), the I/O event is registered
+    again in both modes."""
+    fn = tp.need(u, "tp_task_handler_post_int")
+    rep.functions.add(fn.name)
+    need = flags["TP_F_DISPATCH"] | flags["TP_F_ONESHOT"]
+    n = 0
+    for bid in fn.reachable_blocks():
+        cnd = fn.blocks[bid].cond
+        if cnd is None:
+            continue
+        for y, _ in walk(cnd):
+            if y.get("k") == "bin" and y["op"] == "&" and any(core.strip_casts(y[s_]).get("k") == "mem" and core.strip_casts(y[s_])["f"] == "event_flags" for s_ in ("x", "y")):
+                m = const_val(core.strip_casts(y["x"])) or const_val(core.strip_casts(y["y"])) or 0
+                n += 1
+                desc = "tp_task_handler_post_int: the I/O event is re-armed in every mode in which the pool switched it off on delivery"
+                (rep.proved if m & need == need else rep.violated)("R-REARM", fn, "rearm-mask", desc, "mask 0x%x" % m if m & need == need else
+                                                                  "mask 0x%x lacks TP_F_ONESHOT: a one-shot task whose 100-byte window got 50 bytes continues internally, but its "
+                                                                  "registration is gone - the second fragment is never read, no callback (or ETIMEDOUT with the data waiting)" % m, y.get("ln"))
+    return n
+
+
+def event_error_priority_rule(rep, u):
+    fn = tp.need(u, "tp_task_handler")
+    ids = core.result_locals(fn, {"tp_task_handler_pre_int"})
+    copies = {}
+    for pos, root, x, ps in fn.nodes():
+        if x.get("k") == "bin" and x["op"] == "=" and core.strip_casts(x["y"]).get("k") == "ref" and core.strip_casts(x["y"]).get("id") in ids \
+                and core.strip_casts(x["x"]).get("k") == "ref":
+            copies[core.strip_casts(x["x"]).get("id")] = core.strip_casts(x["x"])["n"]
+    n = 0
+    for pos, root, x, ps in fn.nodes():
+        if x.get("k") == "bin" and x["op"] == "=" and core.strip_casts(x["y"]).get("k") == "ref" and core.strip_casts(x["y"]).get("id") in copies \
+                and core.strip_casts(x["x"]).get("k") == "ref" and core.strip_casts(x["x"]).get("id") in ids:
+            n += 1
+            # the assignment's controlling condition tests the copy (the event error), not the filtered errno
+            ctl = [c_ for b, c_ in [(bid, fn.blocks[bid].cond) for bid in fn.reachable_blocks() if fn.blocks[bid].cond is not None and fn.dominates(bid, pos[0]) and bid != pos[0]
+                                    and any(pos[0] not in fn.reach_from([s_]) for s_ in fn.blocks[bid].rsucc())]]
+            last = ctl[-1] if ctl else None
+            on_copy = False
+            for b in sorted((bid for bid in fn.reachable_blocks() if fn.blocks[bid].cond is not None and pos[0] in fn.blocks[bid].rsucc()), reverse=True):
+                cnd = fn.blocks[b].cond
+                if any(y.get("k") == "ref" and y.get("id") in copies for y, _ in walk(cnd)):
+                    on_copy = True
+            desc = "tp_task_handler: an event error (SO_ERROR fetched by the pool) is what the callback is told, whatever errno the transfer attempt left"
+            (rep.proved if on_copy else rep.violated)("R-LIVE", fn, "event-error-priority", desc, "" if on_copy else
+                                                      "the event error is used only when the transfer's errno filtered to 0: a send task whose peer reset the "
+                                                      "connection reports EPIPE (from send()) instead of ECONNRESET / ECONNREFUSED", x.get("ln"))
+    return n
+
+
+def window_clamp_rule(rep, uio, fname="io_buf_realloc"):
+    fn = uio.fn(fname)
+    if fn is None or not fn.has_cfg:
+        raise driver.AnalysisBroken("anchor %s vanished" % fname)
+    rep.functions.add(fname)
+    ok = False
+    for bid in fn.reachable_blocks():
+        cnd = fn.blocks[bid].cond
+        if cnd is None:
+            continue
+        fields = {y["f"] for y, _ in walk(cnd) if y.get("k") == "mem"}
+        if "transfer_size" in fields and "offset" in fields:
+            ok = True
+    desc = "%s: after a resize the transfer window [offset, offset + transfer_size) lies inside the new size" % fname
+    (rep.proved if ok else rep.violated)("R-WINDOW", fn, "window-inside-size", desc, "clamped against size - offset" if ok else
+                                         "transfer_size is clamped against `used`, not against size - offset: shrinking 100 -> 80 with offset 60 leaves a 40-byte "
+                                         "window that ends at 100, recv() writes behind the buffer")
+    return 1
